@@ -22,6 +22,9 @@
 
     The API round trip (json omitempty: empty slice <-> nil, empty map <-> nil)
     is the explicit function [norm], applied on every write to the store.
+    The handler is modelled in its two versions, before and after the repair
+    9775a95 (flags [sg] of [ignore_fields] and [lenfix] of
+    [maps_equal_by_source_keys]); [ignore_sg] / [pg_equal] select the current one.
 
     Left out / oracles: all other plugins (kubeflow, ray, spark, jobset, grove,
     lws, knative, cronjob, runaijob, aml, spotrequest, notebook) give
@@ -615,8 +618,12 @@ Definition create_pg (m : metadata) : pg :=
      sp_subgroups := Some (m_subgroups m);      (* []SubGroup{} then append: never nil *)
      sp_topo := m_topo m |}.
 
-(** ignoreFields *)
-Definition ignore_fields (cfg : config) (old new : pg) : pg :=
+Definition slice_empty {A} (l : option (list A)) : bool :=
+  match l with None => true | Some [] => true | Some (_ :: _) => false end.
+
+(** ignoreFields. [sg] = the step added by the repair 9775a95: an empty sub-group list is
+    replaced by the stored (nil) one so that like is compared with like *)
+Definition ignore_fields (sg : bool) (cfg : config) (old new : pg) : pg :=
   let l0 := match pg_labels new with None => [] | Some l => l end in
   let l1 := match mget (c_nodepool_key cfg) (pg_labels old) with
             | Some v => aset (c_nodepool_key cfg) v l0
@@ -629,7 +636,9 @@ Definition ignore_fields (cfg : config) (old new : pg) : pg :=
   {| pg_labels := Some l2; pg_annots := pg_annots new; pg_owners := pg_owners new;
      sp_min := sp_min new; sp_queue := sp_queue old; sp_prio := sp_prio new;
      sp_preempt := sp_preempt new; sp_mark := sp_mark old; sp_backoff := sp_backoff old;
-     sp_subgroups := sp_subgroups new; sp_topo := sp_topo new |}.
+     sp_subgroups := if sg && slice_empty (sp_subgroups new) && slice_empty (sp_subgroups old)
+                     then sp_subgroups old else sp_subgroups new;
+     sp_topo := sp_topo new |}.
 
 (** ** Equality helpers (reflect.DeepEqual on the compared parts) *)
 Definition opt_eqb {A} (e : A -> A -> bool) (a b : option A) : bool :=
@@ -663,28 +672,35 @@ Definition spec_eqb (a b : pg) : bool :=
   && opt_eqb (list_eqb subgroup_eqb) (sp_subgroups a) (sp_subgroups b)
   && topo_eqb (sp_topo a) (sp_topo b).
 
-(** mapsEqualBySourceKeys *)
-Definition maps_equal_by_source_keys (source target : option smap) : bool :=
+(** mapsEqualBySourceKeys. [lenfix] = the repair 9775a95: [len(source) > 0 && target == nil]
+    instead of [source != nil && target == nil] *)
+Definition maps_equal_by_source_keys (lenfix : bool) (source target : option smap) : bool :=
   match source, target with
-  | Some _, None => false
+  | Some s, None => lenfix && match s with [] => true | _ :: _ => false end
   | None, _ => true
   | Some s, Some t =>
     forallb (fun kv => opt_eqb String.eqb (lookup (fst kv) t) (lookup (fst kv) s)) s
   end.
 
-(** ** The equality test of ApplyToCluster — the ONE place to flip after a repair *)
-
-(** podGroupsEqual as it is in the code today *)
-Definition pg_equal_v0 (old new : pg) : bool :=
+(** podGroupsEqual *)
+Definition pg_equal_with (lenfix : bool) (old new : pg) : bool :=
   spec_eqb old new
   && list_eqb owner_ref_eqb (pg_owners old) (pg_owners new)
-  && maps_equal_by_source_keys (pg_labels new) (pg_labels old)
-  && maps_equal_by_source_keys (pg_annots new) (pg_annots old).
+  && maps_equal_by_source_keys lenfix (pg_labels new) (pg_labels old)
+  && maps_equal_by_source_keys lenfix (pg_annots new) (pg_annots old).
 
-(** repaired: compare what the API would hold for both sides *)
-Definition pg_equal_fixed (old new : pg) : bool := pg_equal_v0 (norm old) (norm new).
+(** ** The two versions of the handler — the ONE place that selects which one is modelled *)
 
-Definition pg_equal := pg_equal_v0.
+(** before 9775a95: []SubGroup{} and an empty label map never equal what the API returns *)
+Definition pg_equal_v0 := pg_equal_with false.
+Definition ignore_sg_v0 := false.
+(** since 9775a95 *)
+Definition pg_equal_v1 := pg_equal_with true.
+Definition ignore_sg_v1 := true.
+
+(** the code as it is *)
+Definition pg_equal := pg_equal_v1.
+Definition ignore_sg := ignore_sg_v1.
 
 (** copyStringMap *)
 Definition copy_string_map (source target : option smap) : option smap :=
@@ -703,12 +719,12 @@ Definition update_pg (old new : pg) : pg :=
      sp_subgroups := sp_subgroups new; sp_topo := sp_topo new |}.
 
 (** Handler.ApplyToCluster on the one store slot it touches; second component = mutating API calls *)
-Definition apply_slot_with (eq : pg -> pg -> bool) (cfg : config) (m : metadata) (cur : option pg) : pg * Z :=
+Definition apply_slot_with (sg : bool) (eq : pg -> pg -> bool) (cfg : config) (m : metadata) (cur : option pg) : pg * Z :=
   let new := create_pg m in
   match cur with
   | None => (norm new, 1%Z)
   | Some old =>
-    let new' := ignore_fields cfg old new in
+    let new' := ignore_fields sg cfg old new in
     if eq old new' then (old, 0%Z) else (norm (update_pg old new'), 1%Z)
   end.
 
@@ -721,8 +737,8 @@ Definition empty_state : state := {| st_pgs := []; st_asg := [] |}.
 Definition get_pg (n : string) (s : state) : option pg := lookup n (st_pgs s).
 Definition get_asg (k : string) (s : state) : option string := lookup k (st_asg s).
 
-Definition apply_to_cluster_with (eq : pg -> pg -> bool) (cfg : config) (m : metadata) (s : state) : state * Z :=
-  let r := apply_slot_with eq cfg m (get_pg (m_name m) s) in
+Definition apply_to_cluster_with (sg : bool) (eq : pg -> pg -> bool) (cfg : config) (m : metadata) (s : state) : state * Z :=
+  let r := apply_slot_with sg eq cfg m (get_pg (m_name m) s) in
   ({| st_pgs := aset (m_name m) (fst r) (st_pgs s); st_asg := st_asg s |}, snd r).
 
 (** Metadata.FindSubGroupForPod: sub-groups carry no pod references in the modelled plugins *)
@@ -735,12 +751,12 @@ Definition needs_patch (m : metadata) (p : pod) (a : option string) : bool :=
   negb (String.eqb cur_pg (m_name m) && String.eqb cur_sg (expected_subgroup m p)).
 
 (** PodReconciler.Reconcile; second component = mutating API calls *)
-Definition reconcile_with (eq : pg -> pg -> bool) (cfg : config) (cl : list obj) (p : pod) (s : state) : state * Z :=
+Definition reconcile_with (sg : bool) (eq : pg -> pg -> bool) (cfg : config) (cl : list obj) (p : pod) (s : state) : state * Z :=
   let a := get_asg (p_name p) s in
   match full_md cfg cl p a with
   | None => (s, 0%Z)
   | Some m =>
-    let r := apply_to_cluster_with eq cfg m s in
+    let r := apply_to_cluster_with sg eq cfg m s in
     let w := if needs_patch m p a then 1%Z else 0%Z in
     ({| st_pgs := st_pgs (fst r); st_asg := aset (p_name p) (m_name m) (st_asg (fst r)) |}, (snd r + w)%Z)
   end.
@@ -772,9 +788,9 @@ Definition foreign_apply (cfg : config) (f : foreign_upd) (g : pg) : pg :=
 
 Inductive event := EvReconcile (p : pod) | EvForeign (name : string) (f : foreign_upd).
 
-Definition step_with (eq : pg -> pg -> bool) (cfg : config) (cl : list obj) (e : event) (s : state) : state * Z :=
+Definition step_with (sg : bool) (eq : pg -> pg -> bool) (cfg : config) (cl : list obj) (e : event) (s : state) : state * Z :=
   match e with
-  | EvReconcile p => reconcile_with eq cfg cl p s
+  | EvReconcile p => reconcile_with sg eq cfg cl p s
   | EvForeign n f =>
     match get_pg n s with
     | None => (s, 0%Z)
@@ -782,14 +798,14 @@ Definition step_with (eq : pg -> pg -> bool) (cfg : config) (cl : list obj) (e :
     end
   end.
 
-Definition run_with (eq : pg -> pg -> bool) (cfg : config) (cl : list obj) (es : list event) (s : state) : state :=
-  fold_left (fun s e => fst (step_with eq cfg cl e s)) es s.
+Definition run_with (sg : bool) (eq : pg -> pg -> bool) (cfg : config) (cl : list obj) (es : list event) (s : state) : state :=
+  fold_left (fun s e => fst (step_with sg eq cfg cl e s)) es s.
 
 (** the code as it is *)
-Definition apply_to_cluster := apply_to_cluster_with pg_equal.
-Definition reconcile := reconcile_with pg_equal.
-Definition step := step_with pg_equal.
-Definition run := run_with pg_equal.
+Definition apply_to_cluster := apply_to_cluster_with ignore_sg pg_equal.
+Definition reconcile := reconcile_with ignore_sg pg_equal.
+Definition step := step_with ignore_sg pg_equal.
+Definition run := run_with ignore_sg pg_equal.
 
 (** the fields other actors own, as read from a stored PodGroup *)
 Record fview := { fv_queue : string; fv_mark : option bool; fv_backoff : option Z; fv_nodepool : option string }.
